@@ -95,12 +95,13 @@ Proof.
   split; [intros [[-> ->] ->]; reflexivity | intro H; injection H; auto].
 Qed.
 
-(* the correspondence compares observations exactly, up to alpha (which forgets only the
-   event lists of the two whole-test runs and keeps whether they are equal) *)
+(* the correspondence compares observations exactly, up to alpha (which forgets the event lists of
+   the two whole-test runs, keeping whether they are equal, and what a history shows after its first
+   extract_result: Corr.C20.cut) *)
 Theorem obs_eqb_spec a b : obs_eqb a b = true <-> alpha a = alpha b.
 Proof.
   destruct a as [x|x], b as [y|y]; simpl; try (split; intro H; discriminate).
-  - rewrite hobs_eqb_spec. split; intro H; [subst|injection H as ->]; reflexivity.
+  - rewrite hobs_eqb_spec. split; intro H; [rewrite H; reflexivity | injection H as H; exact H].
   - rewrite sobs_eqb_spec. split; intro H; [rewrite H; reflexivity | unfold sobs_alpha in *; congruence].
 Qed.
 
